@@ -2,6 +2,7 @@ package main
 
 import (
 	"fmt"
+	"os"
 	"strings"
 )
 
@@ -145,7 +146,7 @@ func (n *sx) subst(m map[string]string) *sx {
 // negatedGoal returns the script lines that assert the negation of goal.
 func negatedGoal(goal string) []string {
 	g, ok := parseSx(goal)
-	if !ok {
+	if !ok || os.Getenv("GOVC_NOSKOLEM") != "" {
 		return []string{fmt.Sprintf("(assert (not %s))", goal)}
 	}
 	var lines []string
